@@ -18,12 +18,31 @@ from lib.vlib import cq_bytes, cq_list, cq_bool
 SETUP_BUILDS = [{"name": "c20"}]
 COQ_TARGETS = ["Tok/Properties_C20.v", "Tok/Corr.v"]
 HEADER0 = ("From Coq Require Import List NArith ZArith Bool.\n"
-           "From V Require Import Common.Bytes Tok.Utf8 Tok.ByteMap Tok.Heap Tok.Vocab Tok.Special Tok.Bpe Tok.Spm Tok.Corr.\n"
+           "From V Require Import Common.Bytes Tok.Utf8 Tok.ByteMap Tok.Heap Tok.Vocab Tok.Special Tok.Bpe Tok.Spm Tok.Pretok Tok.Corr.\n"
            "Import ListNotations.\n")
 
 LLAMA_PRE = r"(?i:'s|'t|'re|'ve|'m|'ll|'d)|[^\r\n\p{L}\p{N}]?\p{L}+|\p{N}{1,3}| ?[^\s\p{L}\p{N}]+[\r\n]*|\s*[\r\n]+|\s+(?!\S)|\s+"
 SIMPLE_PRE = r"\S+|\s+"
 SEP = "▁"
+TEKKEN_PRE = (r"[^\r\n\p{L}\p{N}]?[\p{Lu}\p{Lt}\p{Lm}\p{Lo}\p{M}]*[\p{Ll}\p{Lm}\p{Lo}\p{M}]+|[^\r\n\p{L}\p{N}]?[\p{Lu}\p{Lt}\p{Lm}\p{Lo}\p{M}]+[\p{Ll}\p{Lm}\p{Lo}\p{M}]*"
+              r"|\p{N}| ?[^\s\p{L}\p{N}]+[\r\n/]*|\s*[\r\n]+|\s+(?!\S)|\s+")
+# the patterns as modelled in coq/Tok/Pretok.v (llama3 = 0, tekken = 1)
+MODELLED = {LLAMA_PRE: 0, TEKKEN_PRE: 1}
+
+
+def repo_patterns():
+    """the default pre-tokeniser patterns the CURRENT tree passes to NewBytePairEncoding, read from the sources
+    (the harness compiles exactly these strings with the real regexp2): {where: pattern}"""
+    out = {}
+    for where in ("model/models/llama/model.go", "model/models/mllama/model.go", "model/models/mistral3/model_text.go", "model/process_text_test.go"):
+        try:
+            src = open(os.path.join(vlib.REPO, where), encoding="utf-8").read()
+        except OSError:
+            continue
+        m = re.search(r'"tokenizer\.ggml\.pretokenizer",\s*`([^`]*)`', src) or re.search(r'NewBytePairEncoding\(\s*`([^`]*)`', src)
+        if m:
+            out[where] = m.group(1)
+    return out
 
 
 # ------------------------------------------------------------------ the byte <-> rune map (reference: GPT-2)
@@ -57,6 +76,7 @@ class Vocab:
         self.values, self.types, self.scores, self.merges = values, types, scores, merges
         self.pre, self.bos, self.eos, self.add_bos, self.add_eos = pre, bos, eos, add_bos, add_eos
         self.complete, self.sparse = complete, sparse
+        self.which = 0   # which modelled pattern describes self.pre (0 llama3, 1 tekken)
         self.enc = {}
         for i, v in enumerate(values):
             self.enc[v] = i
@@ -67,7 +87,7 @@ class Vocab:
 
     def setup_line(self):
         if self.sparse:
-            return {"op": "llama", "name": self.name}
+            return {"op": "llama", "name": self.name, "pre": self.pre or ""}
         return {"op": "vocab", "name": self.name, "kind": self.kind, "values": [v.hex() for v in self.values], "types": self.types,
                 "scores": self.scores, "merges": [m.hex() for m in self.merges], "pre": self.pre or "", "bos": self.bos, "eos": self.eos,
                 "add_bos": self.add_bos, "add_eos": self.add_eos}
@@ -123,8 +143,16 @@ def mk_bpe_vocab(rng, name, style):
     for c in ctrl:
         values.append(c)
         types.append(3)
-    return Vocab(name, "bpe", values, types, [], merges, pre=(SIMPLE_PRE if style == "simple" else LLAMA_PRE), bos=bos, eos=bos + 1,
-                 add_bos=True, add_eos=(style == "safe105"), complete=complete)
+    pats = repo_patterns()
+    v = Vocab(name, "bpe", values, types, [], merges, bos=bos, eos=bos + 1, add_bos=True, add_eos=(style == "safe105"), complete=complete)
+    # the pattern strings come from the CURRENT sources; the model of each is fixed (Tok/Pretok.v)
+    if style == "simple":
+        v.pre, v.which = pats.get("model/models/mistral3/model_text.go", TEKKEN_PRE), 1
+    elif style == "safe105":
+        v.pre, v.which = pats.get("model/models/mllama/model.go", LLAMA_PRE), 0
+    else:
+        v.pre, v.which = pats.get("model/models/llama/model.go", LLAMA_PRE), 0
+    return v
 
 
 SPM_ALPHA = list("abcde") + [" ", " ", " ", "1", ".", "é", "€", "́", "\U0001F600", "~"]
@@ -209,7 +237,7 @@ def load_llama(name):
             merges.append(line.rstrip(b"\r"))
     if merges and merges[-1] == b"":
         merges.pop()
-    v = Vocab(name, "bpe", values, types, [], merges, pre=LLAMA_PRE, bos=0, eos=0, sparse=True)
+    v = Vocab(name, "bpe", values, types, [], merges, pre=repo_patterns().get("model/models/llama/model.go", LLAMA_PRE), bos=0, eos=0, sparse=True)
     return v
 
 
@@ -255,6 +283,14 @@ WS = [" ", " ", " ", "  ", "   ", "\t", "\n", "\n\n", " \n", "\r\n", " \t ", " 
 
 REPEATS = ["aaaa", "aaaaaaaaa", "abababab", "aabbaabb", "      ", " a a a a", "\n\n\n\n\n", "........", "1111111", "12345678901", "ééééé",
            "a" * 23, "ab" * 11, "   a   b   ", "''''", "~~~~~", "a~a~a~", "\x7f\x7f\x7f"]
+
+
+# class representatives for the pre-tokeniser: lower, upper, space, newline, digit, punctuation, apostrophe, contraction letters, CR, tab,
+# other-letter, mark, titlecase, modifier letter, other number, slash, NBSP, emoji, long s, Kelvin
+PT_ALPHA = ["a", "A", " ", "\n", "1", "!", "'", "s", "\r", "\t", "中", "́", "L", "ǅ", "ʰ", "½", "/", "\u00a0", "\U0001F600", "ſ", "K", "t", "\u3000", "\x0b", "\x85"]
+PT_TEXTS = ["I'll we've DON'T it'S 'tis o'clock 'LL'Ll", "x  y   z    ", "a\n\n b\r\n\r\nc \n", " \n \n", "1234567890 12 1", "a1b22c333d4444", "!!!\n\n??? ...",
+            " !a !1 ! ", "  !", "\t\ta", "a\t", "end  ", "  ", " ", "", "e\u0301e\u0301", "中文字符 and ελληνικά", "ǅungla ʰa", "½ ²³ ٣٤٥٦", "a/b//c\n/",
+            "'s's'S", "'", "''s", "a's", "A'S", "'re're", "'r", "'l", "'ll", "'v", "1's", " 's", "\n's"]
 
 
 def rnd_text(rng, alpha=None, maxw=6):
@@ -334,6 +370,11 @@ def gen(ctx):
             add(v, w, "single-word")
         for rep in REPEATS:
             add(v, rep, "repeats")
+        # addSpecial: BOS/EOS only around a non-empty id list; a text that already starts/ends with the BOS/EOS literal
+        bl = v.values[v.bos].decode("utf-8", "replace") if 0 <= v.bos < len(v.values) else ""
+        el = v.values[v.eos].decode("utf-8", "replace") if 0 <= v.eos < len(v.values) else ""
+        for t in ["", "ab", " ", "a b", bl, bl + "a", "a" + el, bl + "a" + el, el + bl, "\n"]:
+            add(v, t, "add-special", add_special=True)
         # exhaustive small scope: every string up to a length over a few symbols (all merge orders of short inputs)
         import itertools
         syms, maxl = (("a", "b", " "), 3) if q else (("a", "b", " ", "~"), 5 if not v.sparse else 4)
@@ -371,6 +412,49 @@ def gen(ctx):
                 add(v, a, "special-part", group=g + ":a")
                 add(v, b, "special-part", group=g + ":b")
                 add(v, a + sp + b, "special-literal", group=g + ":t:" + sp.encode().hex())
+    # the pre-tokeniser alone: real regexp2 split of the patterns of the current sources vs the modelled splitter
+    pats = repo_patterns()
+    roles = [(pats.get("model/models/llama/model.go", LLAMA_PRE), 0, PT_ALPHA[:16] if q else PT_ALPHA),
+             (pats.get("model/models/mistral3/model_text.go", TEKKEN_PRE), 1, PT_ALPHA[:13] if q else PT_ALPHA)]
+    if pats.get("model/models/mllama/model.go", roles[0][0]) != roles[0][0]:
+        roles.append((pats["model/models/mllama/model.go"], 0, PT_ALPHA[:10]))
+    if pats.get("model/process_text_test.go", roles[0][0]) != roles[0][0]:
+        roles.append((pats["model/process_text_test.go"], 0, PT_ALPHA[:10]))
+    # the match loop itself: a pattern that leaves gaps, a pattern with empty matches
+    roles.append((r"\p{L}+|\p{N}{1,3}", 2, PT_ALPHA[:6]))
+    roles.append((r"\p{L}*", 3, PT_ALPHA[:6]))
+    import itertools as _it
+    for pat, which, alpha in roles:
+        def addp(t, klass):
+            b = t if isinstance(t, bytes) else clean(t).encode("utf-8", "surrogatepass")
+            cases.append({"op": "pretok", "pre": pat, "which": which, "text": b.hex(), "klass": klass, "vocab": None, "group": None, "add_special": False})
+        for L in range(0, 4):
+            for tup in _it.product(alpha, repeat=L):
+                addp("".join(tup), "pretok-exhaustive")
+        if not q:
+            for tup in _it.product(alpha[:12] if which < 2 else alpha, repeat=4):
+                addp("".join(tup), "pretok-exhaustive")
+        for w in PT_TEXTS:
+            addp(w, "pretok-fixed")
+        if which >= 2:
+            continue
+        for w in WORDS + WS + REPEATS:
+            addp(w, "pretok-fixed")
+        for t in coverage_texts():
+            addp(t, "pretok-fixed")
+        for k in range(150 if q else 3000):
+            r = rng.random()
+            if r < 0.4:
+                addp("".join(rng.choice(PT_ALPHA) for _ in range(rng.randint(4, 14))), "pretok-random")
+            elif r < 0.7:
+                addp(rnd_text(rng, None, 8), "pretok-random")
+            else:
+                # contractions in both cases, digit runs, whitespace runs
+                bits = ["I", "we", "THEY", "don", "'s", "'S", "'t", "'T", "'re", "'RE", "'Ve", "'ve", "'m", "'M", "'ll", "'LL", "'lL", "'d", "'D", "'x", "'", "''",
+                        "1", "12", "123", "1234", "1234567", "٣٤٥", "½", "²", " ", "  ", "   ", "\t", "\n", "\r\n", "\n\n ", " \n", "\u00a0", "\u3000", "\u2028",
+                        "ſ", "K", "'ſ", "'K", "!", "!!", " !", "/", "//\n", "a", "Ab", "aB", "ǅ", "ʰ", "中", "é", "é"]
+                addp("".join(rng.choice(bits) for _ in range(rng.randint(2, 8))), "pretok-random")
+
     # several DIFFERENT special literals, several occurrences, every order (a fragment is split in a later pass while
     # fragments already exist to its right), text between / at the ends or not, adjacent specials, prefix-related specials
     for v in vocabs:
@@ -528,9 +612,16 @@ def render(v, c, o):
             vt, _, _ = sparse_vocab_term(v, pieces, ids)
         else:
             vt = v.name
-        return "chk_bpe %s %s %s %s %s %s %s" % (vt, tterm, cq_bytes(text), cq_bool(c["add_special"]), cq_ids(ids), cq_bool(dec_ok), cq_bytes(dec))
+        ctbl = cq_list(["(%d%%N, %d%%N)" % (r, m) for r, m in o.get("classes", [])], "(N * N)")
+        return "(chk_bpe %s %s %s %s %s %s %s && chk_pretok_tbl %d%%N %s %s)" % (
+            vt, tterm, cq_bytes(text), cq_bool(c["add_special"]), cq_ids(ids), cq_bool(dec_ok), cq_bytes(dec), v.which, ctbl, tterm)
     code = 0 if "dec" in o else (1 if "dec_err" in o else 2)
     return "chk_spm %s %s %s %s %d%%N %s" % (v.name, cq_bytes(text), cq_bool(c["add_special"]), cq_ids(ids), code, cq_bytes(bytes.fromhex(o.get("dec", ""))))
+
+
+def render_pretok(c, o):
+    ctbl = cq_list(["(%d%%N, %d%%N)" % (r, m) for r, m in o.get("classes", [])], "(N * N)")
+    return "chk_pretok %d%%N %s %s %s" % (c["which"], ctbl, cq_bytes(bytes.fromhex(c["text"])), cq_strs([bytes.fromhex(x) for x in o.get("pieces", [])]))
 
 
 def render_dec(v, c, o):
@@ -595,16 +686,21 @@ def run(ctx, only=None):
                 "llama 3.2 test vocabulary: corpus of past minimal failures; texts covering every byte value of valid UTF-8; ~115 fixed words (scripts, "
                 "whitespace, digits, punctuation incl. ~ and DEL, C1 controls, combining marks, emoji, U+2581, byte-token literals); runs of one/two symbols "
                 "(equal ranks/scores); every string up to length 3 (thorough 5) over {a,b,space(,~)}; random texts over a small alphabet (many merges) "
-                "and over the word list; texts with a planted special-token literal (+ its two parts alone); decode-only id lists (incl. out-of-range ids); "
+                "and over the word list; texts with one or several planted special-token literals (+ the parts alone); decode-only id lists (incl. out-of-range ids); addSpecial on/off; "
+                "pre-tokeniser alone: for the llama 3 and tekken patterns read from the current sources, every string up to length 3 (thorough 4) over 13-25 class representatives, "
+                "fixed and random texts (contractions in both cases, digit runs, whitespace runs, every script), plus two test patterns for gaps and empty matches; "
                 "non-trivial = more than one token and not one token per byte (a merge or a multi-byte piece happened), or a non-empty decode for decode-only; "
                 "distinct = by (vocabulary, text, add_special) / (vocabulary, ids)")
     ctx.trusted = ["Coq 8.16.1 kernel + vm_compute", "hand-written model coq/Tok/*.v tied to model/process_text.go and model/process_text_spm.go by this differential run only",
-                   "regexp2 pre-tokeniser: an oracle of the model; its answers are observed through the add-only export VerifSplit and checked to be partitions",
+                   "regexp2: the patterns of the sources (llama 3, tekken) are MODELLED (Tok/Pretok.v: backtracking matcher + match loop) and compared with the real split on every case; "
+                   "what stays an oracle is the per-rune Unicode class membership (\\p{L}, \\p{N}, \\s, ...), observed from the real engine and handed to the model as a table "
+                   "(the partition theorem holds for ANY class table); for arbitrary patterns the Section-style hypothesis split_partition remains",
                    "Go runtime string<->[]rune conversions, strings.Index/ReplaceAll, strconv.ParseUint, container/heap and gods binaryheap as modelled in Tok/Utf8.v, Tok/Heap.v",
                    "Go harness harness/cmd/c20 (+ overlay model/c20.go, build tag verif); python generator/monitor props/c20.py",
                    "llama 3.2 vocabulary handed to the model as a per-case restriction to the strings that can be looked up (validated against the real Vocabulary.Encode/Merge)"]
     ctx.assumptions = ["round-trip theorems: vocabulary covers every byte (every single mapped rune / every <0xXX> token present), text valid UTF-8 without NUL, addSpecial=false",
-                       "pre-tokeniser returns a partition of its input into non-empty pieces (Section hypothesis; tested on every fragment of every case)",
+                       "C20_bpe_roundtrip (arbitrary pattern): pre-tokeniser returns a partition (hypothesis; tested on every fragment); C20_bpe_roundtrip_llama3/_tekken: no such hypothesis "
+                       "(tekken: every \\p{L} rune is in a letter subclass - tested on every observed class)",
                        "special-token strings are non-empty",
                        "float32 scores are only compared: the model uses integers, the generator integer-valued scores"]
     ctx.proof_stage(["Tok"], "Tok/Properties_C20.v", extra_targets=["Tok/Corr.v"])
@@ -632,7 +728,29 @@ def run(ctx, only=None):
     part_bad = 0
     fails = {}
     groups = {}
+    npt_bad = 0
+    cls_bad = []
     for c, o in zip(cases, obs):
+        for r_, m_ in o.get("classes", []) if isinstance(o, dict) else []:
+            # hypothesis of C20_pretokenize_partition_tekken: a \p{L} rune is in one of the letter subclasses
+            if m_ & 1 and not m_ & 0b11111000:
+                cls_bad.append(r_)
+        if c["op"] == "pretok":
+            tb = bytes.fromhex(c["text"])
+            ps = [bytes.fromhex(x) for x in o.get("pieces", [])]
+            ctx.note_case({"pre": c["which"], "p": c["pre"], "t": c["text"]}, len(ps) > 1, "pretok:" + c["klass"],
+                          sample={"case": {"pattern": c["pre"], "text": repr(tb)}, "impl": [repr(x) for x in ps]})
+            if "pieces" not in o:
+                ctx.violation({"family": "bpe", "class": "pretok-failed"}, "split panicked/failed on %r: %s" % (tb, o), {"case": c, "impl": o})
+            elif c["which"] < 2 and is_valid_utf8(tb) and (b"".join(ps) != tb or any(x == b"" for x in ps)):
+                npt_bad += 1
+                if npt_bad <= 3:
+                    ctx.violation({"family": "bpe", "class": "pretok-not-partition"},
+                                  "the pre-tokeniser pattern %r splits %r into %r: not a partition into non-empty pieces, so Encode drops/duplicates text for "
+                                  "every vocabulary and Decode(Encode(t)) != t" % (c["pre"], tb, ps), {"case": c, "impl": o})
+            items.append(render_pretok(c, o) if "pieces" in o else "false")
+            meta.append((None, c, o))
+            continue
         v = vby[c["vocab"]]
         tb = bytes.fromhex(c["text"])
         if "harness_error" in o:
@@ -675,6 +793,9 @@ def run(ctx, only=None):
         items.append(render(v, c, o))
         meta.append((v, c, o))
     ctx.obligation("hypothesis split_partition holds on every observed pre-tokeniser answer", part_bad == 0)
+    ctx.obligation("hypothesis of the tekken partition theorem (every \\p{L} rune is Lu/Lt/Lm/Lo/Ll) holds on every observed class", not cls_bad, str(cls_bad[:10]))
+    if cls_bad:
+        ctx.mismatch("hypothesis letter_subclasses of C20_pretokenize_partition_tekken fails on the real engine's classes", {"runes": cls_bad[:10]}, None, None)
     # monitor 3: every planted special literal is encoded as exactly its id, between the encodings of the parts
     nsp = 0
     for g, d in groups.items():
@@ -744,6 +865,12 @@ def run(ctx, only=None):
     ctx.obligation("correspondence: model = implementation on %d cases" % len(items), not bad)
     for i in bad[:20]:
         v, c, o = meta[i]
+        if c["op"] == "pretok":
+            ctx.mismatch("Tok/Corr.chk_pretok (modelled pattern %s vs the real regexp2 split of the pattern in the sources)" % ("llama3", "tekken", "gappy-test", "empty-match-test")[c["which"]],
+                         {"pattern": c["pre"], "text": c["text"], "text_repr": repr(bytes.fromhex(c["text"])), "klass": c["klass"]}, o,
+                         ctx.coq_print(header, "pretok (pattern_of %d%%N %s) %s" % (c["which"], cq_list(["(%d%%N, %d%%N)" % (r, m) for r, m in o.get("classes", [])], "(N * N)"),
+                                                                                 cq_bytes(bytes.fromhex(c["text"])))) if len(ctx.mismatches) < 3 else None)
+            continue
         ctx.mismatch("Tok/Corr.%s" % (("chk_bpe" if v.kind == "bpe" else "chk_spm") + ("_dec" if c["op"] == "dec" else "")),
                      {k: c[k] for k in ("vocab", "text", "add_special", "klass", "ids") if k in c},
                      {k: o[k] for k in o}, ctx.coq_print(header, model_term(v, c, o)) if len(ctx.mismatches) < 3 else None)
@@ -797,11 +924,12 @@ MANIFEST = {
         "text": "Coq theorems over an executable model of both tokenizers (any vocabulary that covers every byte, any text): the byte<->rune map is inverted by Decode "
                 "on all 255 non-NUL bytes (exhaustive), the merge loops preserve the text whatever the ranks/scores, the special-token split is a partition, "
                 "Decode(Encode(t)) = t for BPE and SentencePiece under the stated guards, ids lie in the vocabulary, a special literal becomes its id. "
-                "The pre-tokeniser regular expression engine is a Section variable with the hypothesis that it returns a partition (tested on every case). "
+                "The pre-tokeniser patterns of the sources (llama 3, tekken) are modelled as a backtracking matcher + match loop and proved to partition every valid text for any Unicode class tables "
+                "(round trip restated without any pre-tokeniser hypothesis); only per-rune class membership is observed from regexp2. "
                 "The model is tied to model/process_text.go and process_text_spm.go by a differential run evaluated inside Coq with vm_compute.",
         "design_ref": "DESIGN.md section 5, C20",
     },
-    "level_note": "Trusted: Coq kernel/vm_compute; regexp2 (oracle, hypothesis tested); the model-to-code tie is differential testing (generator-bounded). "
+    "level_note": "Trusted: Coq kernel/vm_compute; regexp2 only for per-rune class membership and as the differential reference of the modelled patterns; the model-to-code tie is differential testing (generator-bounded). "
                   "Known findings: SentencePiece cannot round-trip U+2581 or byte-token literals; ids 105/106 are hard-wired special (non-ASCII literal does not round-trip).",
     "technique": "Coq proof (exhaustive byte map, loop invariants of the merge loops, induction over fragments) + model/implementation differential check",
 }
